@@ -14,6 +14,15 @@ var Rating = gocvss31.Rating
 
 const Header = "CVSS:3.1/"
 
+
+type ErrInvalidMetric = gocvss31.ErrInvalidMetric
+
+var ErrInvalidMetricValue = gocvss31.ErrInvalidMetricValue
+var ErrTooShortVector = gocvss31.ErrTooShortVector
+var ErrInvalidCVSSHeader = gocvss31.ErrInvalidCVSSHeader
+type ErrMissing = gocvss31.ErrMissing
+type ErrDefinedN = gocvss31.ErrDefinedN
+
 type metric struct {
 	abv  string
 	vals []string
